@@ -382,13 +382,13 @@ def _compress_tiles(
             # else have 1 chunk per "sample"
             _chunks = (1, *meta.tile.yx)
 
-        if data.chunksize != _chunks:
-            data = data.rechunk(_chunks)
+        # .chunksize is the largest chunk per axis, irregular chunking can have
+        # the same one: rechunk is a no-op when chunks already match
+        data = data.rechunk(_chunks)
     else:
         assert meta.num_planes == 1
         src_ydim = 0
-        if data.chunksize != meta.chunks:
-            data = data.rechunk(meta.chunks)
+        data = data.rechunk(meta.chunks)
 
     encoder = _mk_tile_compressor(meta, sample_idx)
 
